@@ -128,6 +128,12 @@ type Stats struct {
 	FsyncInStoreLogs []int
 	// FirstCommitFsyncs: the subset belonging to the first commit into a newly created file.
 	FirstCommitFsyncs []int
+	// FsyncInFilerDelete: ordinals of the marker thread's fsyncs issued inside Filer.Delete calls.
+	FsyncInFilerDelete []int
+	FilerDeleteOK      int
+	FilerDeleteErr     int
+	// FilerDeleteOKAfterFailure: Deletes that returned nil for a name an earlier Delete had failed on.
+	FilerDeleteOKAfterFailure int
 }
 
 // Check replays the trace of a workload that ran in dir with the given segment size.
@@ -150,6 +156,11 @@ func CheckOwn(calls []Sys, dir string, segSize int, own func(sig string) bool) (
 		return fs
 	}
 	pendingUnlink := map[string]int{}
+	// undurableUnlink: unlinked names whose removal no successful directory fsync has covered yet.
+	// Unlike pendingUnlink it survives a failed directory fsync: whoever later reports that very
+	// deletion done (a retried Filer.Delete) owes the fsync.
+	undurableUnlink := map[string]int{}
+	filerDeleteFailed := map[string]bool{}
 	inDir := func(p string) bool { return strings.HasPrefix(p, dir+"/") }
 	metaFinal := filepath.Join(dir, "wal-meta.db")
 	metaTmp := metaFinal + ".tmp"
@@ -201,6 +212,28 @@ func CheckOwn(calls []Sys, dir string, segSize int, own func(sig string) bool) (
 			if curOp == "StoreLogs" && curPhase == "begin" {
 				for _, fs := range files {
 					fs.writtenSince = false
+				}
+			}
+			if strings.HasPrefix(curOp, "FilerDelete:") && curPhase != "begin" {
+				p := filepath.Join(dir, strings.TrimPrefix(curOp, "FilerDelete:"))
+				if curPhase == "err" {
+					st.FilerDeleteErr++
+					filerDeleteFailed[p] = true
+				} else {
+					st.FilerDeleteOK++
+					if filerDeleteFailed[p] {
+						st.FilerDeleteOKAfterFailure++
+					}
+					if ln, bad := undurableUnlink[p]; bad {
+						if v := vio("filer-delete-ack-without-dirsync", "step %s Filer.Delete of %s returned nil but the unlink of that name (trace line %d) has never been followed by a successful fsync of the directory: after a power loss the segment may be back", step, filepath.Base(p), ln); v != nil {
+							return v, st
+						}
+					}
+					if fs := files[p]; fs != nil && fs.exists {
+						if v := vio("filer-delete-ack-still-linked", "step %s Filer.Delete of %s returned nil but the name was never unlinked", step, filepath.Base(p)); v != nil {
+							return v, st
+						}
+					}
 				}
 			}
 			if curPhase == "ok" {
@@ -352,6 +385,9 @@ func CheckOwn(calls []Sys, dir string, segSize int, own func(sig string) bool) (
 		case "fsync", "fdatasync":
 			if c.Name == "fsync" && c.Tid == markerTid {
 				fsyncOrd++
+				if strings.HasPrefix(curOp, "FilerDelete:") && curPhase == "begin" {
+					st.FsyncInFilerDelete = append(st.FsyncInFilerDelete, fsyncOrd)
+				}
 				if curOp == "StoreLogs" && curPhase == "begin" {
 					st.FsyncInStoreLogs = append(st.FsyncInStoreLogs, fsyncOrd)
 					// the two fsyncs of a first commit into a new file: the file's while its directory
@@ -389,6 +425,9 @@ func CheckOwn(calls []Sys, dir string, segSize int, own func(sig string) bool) (
 				for p := range pendingUnlink {
 					delete(pendingUnlink, p)
 				}
+				for p := range undurableUnlink {
+					delete(undurableUnlink, p)
+				}
 				renameDurable = true
 				continue
 			}
@@ -412,6 +451,7 @@ func CheckOwn(calls []Sys, dir string, segSize int, own func(sig string) bool) (
 			}
 			if strings.HasSuffix(q[1], ".wal") {
 				pendingUnlink[q[1]] = c.Line
+				undurableUnlink[q[1]] = c.Line
 				st.Deletion = true
 			}
 		case "renameat", "renameat2", "rename":
